@@ -1,0 +1,90 @@
+//go:build verif
+
+package immutable
+
+// Contracts for /verif (gvc). Comment-only file; see /verif/DESIGN.md §5 C09.
+
+//@ prop C09
+
+//@ func (*SegmentRange).minTime
+//@   requires sr != nil
+//@   ensures result == sr[0]
+//@   assigns nothing
+//@ func (*SegmentRange).maxTime
+//@   requires sr != nil
+//@   ensures result == sr[1]
+//@   assigns nothing
+//@ func (*SegmentRange).contains
+//@   requires sr != nil
+//@   ensures result == (tm >= sr[0] && tm <= sr[1])
+//@   assigns nothing
+
+//@ func (*ChunkMeta).minTime
+//@   requires m != nil && len(m.timeRange) > 0
+//@   ensures result == m.timeRange[0][0]
+//@   assigns nothing
+//@ func (*ChunkMeta).maxTime
+//@   requires m != nil && len(m.timeRange) > 0
+//@   ensures result == m.timeRange[len(m.timeRange)-1][1]
+//@   assigns nothing
+//@ func (*ChunkMeta).MinMaxTime
+//@   requires m != nil && len(m.timeRange) > 0
+//@   ensures result0 == m.timeRange[0][0] && result1 == m.timeRange[len(m.timeRange)-1][1]
+//@   assigns nothing
+
+// Stored statistics describe the whole chunk: they may be used only if the query range covers it entirely.
+//@ func (*ChunkMeta).allRowsInRange
+//@   requires m != nil && len(m.timeRange) > 0
+//@   ensures result == (tr.Min <= m.timeRange[0][0] && tr.Max >= m.timeRange[len(m.timeRange)-1][1])
+//@   assigns nothing
+
+// min/max and sum/count: the pre-aggregated values are unmarshalled and published only on the path where
+// the whole chunk lies inside the query's time range; otherwise the data path is taken.
+//@ func readMinMax
+//@   ghost full bool = false
+//@   ghost asked bool = false
+//@   call (*ChunkMeta).allRowsInRange
+//@     requires arg0 == ctx.tr
+//@     set full = ret0
+//@     set asked = true
+//@   call .unmarshal
+//@     requires asked && full
+//@   call (*ColMeta).SetMin
+//@     requires asked && full
+//@   call (*ColMeta).SetMax
+//@     requires asked && full
+//@   call readMinMaxFromData
+//@     requires asked && !full
+
+//@ func readSumCount
+//@   ghost full bool = false
+//@   ghost asked bool = false
+//@   call (*ChunkMeta).allRowsInRange
+//@     requires arg0 == ctx.tr
+//@     set full = ret0
+//@     set asked = true
+//@   call .unmarshal
+//@     requires asked && full
+//@   call (*ColMeta).SetSum
+//@     requires asked && full
+//@   call (*ColMeta).SetCount
+//@     requires asked && full
+//@   call readSumCountFromData
+//@     requires asked && !full
+//@   call readTimeCount
+//@     requires asked && !full
+
+// first()/last() from statistics: only if the query range reaches the segment's first / last row.
+//@ func (*FirstLastReader).readFirstOrLastFromPreAgg
+//@   requires r != nil && ctx != nil && sr != nil
+//@   call (*FirstLastReader).ReadMinFromPreAgg
+//@     requires r.first && ctx.tr.Min <= sr[0]
+//@   call (*FirstLastReader).ReadMaxFromPreAgg
+//@     requires !r.first && ctx.tr.Max >= sr[1]
+
+// count(field) over a partially covered chunk counts the non-null values of the selected row window.
+//@ func readSumCountFromData
+//@   call .Overlaps
+//@     requires arg0 == trSegs[i][0] && arg1 == trSegs[i][1]
+//@   call (*ColVal).ValidCount
+//@     requires arg0 == rowIdxStart && arg1 == rowIdxStop
